@@ -685,9 +685,13 @@ def r11_frame(ctx, func, fr, sym, tag):
         else:
             # single index inside `for i, x in enumerate(data)`
             en = loop.iter if isinstance(loop, ast.For) else None
+            start = None
+            if isinstance(en, ast.Call) and call_name(en) == "enumerate":
+                start = kwarg(en, "start", 1)
             ok_loop = (isinstance(en, ast.Call)
                        and call_name(en) == "enumerate"
-                       and len(en.args) == 1 and not en.keywords
+                       and 1 <= len(en.args) <= 2
+                       and all(k.arg == "start" for k in en.keywords)
                        and isinstance(en.args[0], ast.Name)
                        and en.args[0].id in sym.data_names
                        and isinstance(loop.target, ast.Tuple)
@@ -699,7 +703,9 @@ def r11_frame(ctx, func, fr, sym, tag):
                                     f"`{short(st, 50)}` is not inside "
                                     f"`for i, x in enumerate(<data>)`")
             ivar, xvar = [e.id for e in loop.target.elts]
-            sym.bind[ivar] = S("i")
+            # enumerate(data, start=s) counts s, s + 1, …
+            sym.bind[ivar] = S("i") + (sym.rat(start) if start is not None
+                                       else K(0))
             idx = sym.rat(sl)
             ok = (idx - off).same(S("i")) and isinstance(
                 st.value, ast.Name) and st.value.id == xvar
@@ -3109,6 +3115,21 @@ def _reader_dict_dispatch_without_mask(src):
         '    "mask": H5MaskEvent,\n', "")
 
 
+def _enumerate_from_offset(src, start="line_offset"):
+    old = ("        for ii, lbytes in enumerate(lines_as_bytes):\n"
+           "            txt_dset[line_offset + ii] = lbytes\n")
+    if src.count(old) != 1:
+        return src
+    return src.replace(
+        old, "        for line_index, lbytes in enumerate(lines_as_bytes,\n"
+        f"                                            start={start}):\n"
+        "            txt_dset[line_index] = lbytes\n")
+
+
+def _enumerate_from_zero(src):
+    return _enumerate_from_offset(src, start="0")
+
+
 MUTANTS = [
     # R1.1
     ("ndarray: offset read after the resize", WR,
@@ -3223,6 +3244,8 @@ MUTANTS = [
      _single_stepped_loop_short, "R1.2"),
     ("dict dispatch of the reader lost the mask wrapper", EV,
      _reader_dict_dispatch_without_mask, "R1.5"),
+    ("lines enumerated from 0 instead of the line offset", WR,
+     _enumerate_from_zero, "R1.1"),
     # round 3
     ("volume defect test reads the second chain entry", FD,
      ('last_version = software_version.split("|")[-1].strip()',
@@ -3355,6 +3378,10 @@ TWINS = [
     ("log lines decoded by a generator", LG,
      ('log = [li.decode("utf") for li in log]',
       'log = list(li.decode("utf") for li in log)')),
+    ("lines enumerated with start=line_offset", WR, _enumerate_from_offset),
+    ("item-size test mirrored", WR,
+     ("and txt_dset.dtype.itemsize < max_length):",
+      "and max_length > txt_dset.dtype.itemsize):")),
 ]
 
 # mutants that re-introduce the repaired defects (apply to the fixed tree)
